@@ -130,11 +130,19 @@ class Real:
         self.mw._buffer = self.rb  # pylint: disable=protected-access
         if k in ("widx", "wts"):
             a, b = (q["i"], q["j"]) if k == "widx" else (to_dt(q["a"]), to_dt(q["b"]))
-            res = [val_out(x) for x in self.rb.window(a, b, fill_value=fill_arg(q.get("fill"), bool(q.get("fi"))))]
+            fill = fill_arg(q.get("fill"), bool(q.get("fi")))
+            res = [val_out(x) for x in self.rb.window(a, b, fill_value=fill)]
             if q.get("fill") is None:
                 via = [val_out(x) for x in self.mw[a:b]]
                 if via != res:
                     note = f"MovingWindow[a:b]={via} but buffer.window={res}"
+            else:
+                # an explicit fill value (0 / 0.0 / negative / fractional / None) also through `MovingWindow.window`: it
+                # must hand the fill value through unchanged (the direct call's result is what the oracle checks)
+                via = [val_out(x) for x in self.mw.window(a, b, fill_value=fill)]
+                if via != res:
+                    note = (f"MovingWindow.window(fill_value={q.get('fill')}{' (int)' if q.get('fi') else ''})={via} "
+                            f"but buffer.window={res} for {q}")
             return res, note
         key = q["i"] if k == "ati" else to_dt(q["t"])
         outs = []
